@@ -14,6 +14,7 @@
 #if defined(CNL_IOSTREAMS_ENABLED)
 #include <ostream>
 #endif
+#include <type_traits>
 
 /// compositional numeric library
 namespace cnl {
@@ -21,7 +22,13 @@ namespace cnl {
     template<int Digits, class Narrowest>
     auto& operator<<(std::ostream& o, elastic_integer<Digits, Narrowest> const& i)
     {
-        return o << _impl::to_rep(i);
+        using rep = _impl::rep_of_t<elastic_integer<Digits, Narrowest>>;
+        if constexpr (std::is_integral_v<rep> && sizeof(rep) == 1) {
+            // a character type used as a number: print the numeral, not the character
+            return o << static_cast<int>(_impl::to_rep(i));
+        } else {
+            return o << _impl::to_rep(i);
+        }
     }
 #endif
 }
